@@ -21,7 +21,7 @@ CONSTANTS
 %(extra)s
 CHECK_DEADLOCK FALSE
 """
-FIXED = '{"numchips", "trackopt", "dumper"}'
+FIXED = '{"numchips", "trackopt", "dumper", "rsxxlock"}'
 
 ASSUME = [
     "harness/drive_settings.cpp reads the getter-less settings (scale modulators, soft pan, PCM-rate mode, device id, loop/tempo/"
@@ -30,8 +30,12 @@ ASSUME = [
     "the twin instance B is driven with the same calls except those whose return value on A was negative",
     "'audible behaviour' = hash of every chip register / pan write (hook H1) of opn2_reset + a fixed 3-note phrase, plus the PCM hash "
     "for the deterministic cores (GENS and the VGM dumper are compared on register writes only)",
-    "test inputs are three fixed WOPN banks and two fixed SMF songs built by the harness (mirrored by BankHdr/BankDigest/Song in "
-    "spec/Settings.tla); rejected files = wrong magic / truncated / empty / garbage / broken MTrk",
+    "test inputs are three fixed WOPN banks, two fixed SMF songs and one EA-MUS (RSXX) song built by the harness (mirrored by "
+    "BankHdr/BankDigest/Song in spec/Settings.tla); rejected files = wrong magic / truncated / empty / garbage / broken MTrk or rsxx signature",
+    "set-up lock (Synth::setupLocked(), entered by loading the EA-MUS song): the documented state of the monitors takes the format's "
+    "Generic volume model and two chips as in force while locked, the m_setup getters (opn2_getNumChips) and the projected m_setup "
+    "fields (vm, pcm) as 'the stored request', and accepted bank loads / opn2_setChipType / ordinary music loads as the calls that end "
+    "the lock; the deprecated opn2_setLogarithmicVolumes (fourth deferred setter) is not driven",
     "TLC 1.8 evaluates Settings/SettingsTrace correctly; JSON traces round-trip 32-bit integers",
 ]
 
@@ -94,7 +98,8 @@ def check_c18(pid, tier, replay):
     beh = [gen_settings.behaviour_history(b) for b in model_behaviours(q)][:(60 if q else 1000)]
     parts = [
         ("model_generated_behaviours", beh),
-        ("exhaustive_single_calls", gen_settings.exhaustive_singles(("bare", "tuned") if q else ("bare", "song", "tuned"))),
+        ("exhaustive_single_calls", gen_settings.exhaustive_singles(("bare", "tuned", "locked") if q else ("bare", "song", "tuned", "locked", "lockedplain"))),
+        ("setup_locked_by_ea_mus_song", gen_settings.locked_histories(rng, 140 if q else None)),
         ("invalid_call_pairs", gen_settings.exhaustive_pairs(rng, 200 if q else 2500)),
         ("dumper_round_trips", gen_settings.dumper_histories(rng, 12 if q else 120)),
         ("random", [gen_settings.random_history(rng, 14 if q else 24) for _ in range(220 if q else 2500)]),
@@ -121,7 +126,9 @@ def check_c18(pid, tier, replay):
                        "steps_only_the_repaired_model_explains": counters.get("fixed", 0),
                        "first_drifts": stats.get("drift", [])[:5]},
         "monitor_counters": counters,
-        "samples": sample(parts[4][1], 2) + sample(parts[1][1][40:], 1) + sample(beh, 1),
+        "setup_lock": {k: counters.get(k, 0) for k in ("lockenter", "locksteps", "lockstick", "lockdefer", "lockrelease", "lockapply",
+                                                        "lockreject", "lockplay")},
+        "samples": sample(parts[5][1], 2) + sample(parts[1][1][40:], 1) + sample(parts[2][1], 1) + sample(beh, 1),
         "model_runs": [{"scope": r.scope, "ok": r.ok, "violation": r.violation, "distinct": r.distinct, "generated": r.generated,
                         "wall_s": round(r.wall, 1)} for r in mruns] +
                       [{"scope": asis.scope, "violation_labels_of_the_as_is_model": asis.labels, "distinct": asis.distinct,
